@@ -487,6 +487,7 @@ CORPUS = [
     '#import "a.typ": (\n  x,\n  y,\n)\n#show: it => {\n  it\n}\n#let v = (\n  1\n    + 2\n)\n',
     '#let v = a // c\n  + b\n', '#{\n  let v = aaa and // c\n    bbb\n}\n', '#let v = a + f(\n  1,\n) + (\n  2,\n)\n', '#f(a // c\n  + b)\n',
     '#let w = a.b // c\n  .c()\n', '$ f(a, // c\n  b) $\n', '#let g = (x /* c */, // d\n  y) => x\n', '#{\n  x = a // c\n    * b\n}\n',
+    '$ [ a +\nb +\nc ] $\n', '$ f(x) = ( a\n+ b ) $\n', '$ { a\n  b } $\n', '$ (\n  a\n) $\n', '$ vec(\n  a,\n  b,\n) $\n', '$\n  a \\\n  b\n$\n',
     '#let long = aaaaaaaaaaaaaaaaaaaaaaaaaaaaaa + bbbbbbbbbbbbbbbbbbbbbbbbbbbbbbbbbbbb + cccccccccccccccccccccccccccccccccccccc + dddddddddddddddddddddddddddddd\n',
 ]
 
